@@ -2,6 +2,7 @@ package c17
 
 import (
 	"fmt"
+	"strconv"
 
 	"pgregory.net/rapid"
 
@@ -30,7 +31,15 @@ func enumRoots() []RootD {
 		{Kind: "nilptr", Map: map[string]VD{"x": vStr("rx")}},
 		rowRoot("row", "a"),
 		rowRoot("prow", "c"),
+		anyMapRoot(),
 	}
+}
+
+// anyMapRoot: a map[any]any as root data (string keys of the universe plus an int key), with a
+// root scope that binds only x.
+func anyMapRoot() RootD {
+	d := VD{K: "mapaa", M: map[string]VD{"Plain": vStr("aP"), "tagged": vList("slice", vInt(1), vStr("e")), "ID": vStr("aID"), "#1": vStr("int-one")}}
+	return RootD{Kind: "data", Data: &d, Map: map[string]VD{"x": vStr("rx")}}
 }
 
 // rowRoot: root data of one of the same-named Row types.
@@ -116,7 +125,7 @@ func zoo() []VD {
 		VD{K: "nilptr", S: "slice"},
 		VD{K: "nilptr", S: "map"},
 	)
-	return []VD{a, b, intKeyZoo(), rowZoo(), zooNode("top", true), vList("ptr", zooNode("ptop", true)), vStr("just a string"), vList("arr2", vList("slice", vInt(1)), zooNode("ia", false))}
+	return []VD{a, b, intKeyZoo(), rowZoo(), looseZoo(), zooNode("top", true), vList("ptr", zooNode("ptop", true)), vStr("just a string"), vList("arr2", vList("slice", vInt(1)), zooNode("ia", false))}
 }
 
 // exoticZoo holds keys only the quoted bracket form can spell (region of finding kfQuoted).
@@ -395,7 +404,7 @@ func (g genCtx) val(t *rapid.T, depth int) VD {
 		}
 		return l
 	}
-	switch rapid.IntRange(0, 29).Draw(t, "kind") {
+	switch rapid.IntRange(0, 32).Draw(t, "kind") {
 	case 0, 1:
 		return g.val(t, 0)
 	case 2, 3, 4:
@@ -428,6 +437,21 @@ func (g genCtx) val(t *rapid.T, depth int) VD {
 		return VD{K: "mapsi", M: m}
 	case 24, 25, 26:
 		return genIntMap(t)
+	case 30, 31, 32:
+		kind := rapid.SampledFrom([]string{"mapaa", "mapaa", "mapas", "mapns"}).Draw(t, "akind")
+		m := map[string]VD{}
+		for i, n := 0, rapid.IntRange(0, 3).Draw(t, "n"); i < n; i++ {
+			k := g.key(t)
+			if kind != "mapns" && rapid.IntRange(0, 4).Draw(t, "intkey") == 0 {
+				k = "#" + strconv.Itoa(rapid.IntRange(0, 2).Draw(t, "ik"))
+			}
+			if kind == "mapaa" {
+				m[k] = g.val(t, depth-1)
+			} else {
+				m[k] = vStr(fmt.Sprintf("%s%d", kind, i))
+			}
+		}
+		return VD{K: kind, M: m}
 	case 27, 28, 29:
 		return vRow(rapid.SampledFrom([]string{"a", "b", "c"}).Draw(t, "rowv"), rapid.IntRange(0, 9).Draw(t, "rid"), rapid.SampledFrom([]string{"", "t1", "t2"}).Draw(t, "rtitle"), "n")
 	case 16:
@@ -598,7 +622,12 @@ func genSeq(t *rapid.T, rec *ev.Rec, known *kf.File) SeqCase {
 		return m
 	}
 	var root RootD
-	switch rapid.IntRange(0, 7).Draw(t, "root") {
+	switch rapid.IntRange(0, 8).Draw(t, "root") {
+	case 8:
+		root = anyMapRoot()
+		for k, v := range bindings(3) {
+			root.Data.M[k] = v
+		}
 	case 6:
 		root = rowRoot("row", rapid.SampledFrom([]string{"a", "b", "c"}).Draw(t, "rowv"))
 	case 7:
@@ -629,6 +658,10 @@ func genSeq(t *rapid.T, rec *ev.Rec, known *kf.File) SeqCase {
 	if known.Open(kfGoName) && (root.Kind == "struct" || root.Kind == "ptr") {
 		c.EnvSkip = []string{"Tagged", "Sub"}
 		rec.Excluded(kfGoName)
+	}
+	if root.Kind == "data" && known.Open(kfMapRoot) {
+		c.EnvSkip = bigUniverse
+		rec.Excluded(kfMapRoot)
 	}
 	models := []*model{newModel(root)}
 	cur := 0
